@@ -50,7 +50,14 @@ def rand_rot(rng, improper=False):
 
 def point_sets(rng):
     n = rng.randint(3, 50)
-    kind = rng.choice(["generic", "generic", "planar", "collinear", "mirror", "noise", "unrelated", "integer", "float32", "zero-covariance"])
+    kind = rng.choice(["generic", "generic", "planar", "collinear", "mirror", "noise", "unrelated", "integer", "float32", "zero-covariance", "planar-in-plane"])
+    if kind == "planar-in-plane":
+        # a planar set lying EXACTLY in a coordinate plane and the same set turned over (half turn about an in-plane axis): congruent by a
+        # proper rotation; the smallest singular value of the covariance is exactly 0.0
+        A0 = np.array([[rng.uniform(-5, 5), rng.uniform(-5, 5), 0.0] for _ in range(n)])
+        ax = rng.choice([0, 1])
+        Qh = np.diag([1.0, -1.0, -1.0]) if ax == 0 else np.diag([-1.0, 1.0, -1.0])
+        return "planar", A0, A0 @ Qh, Qh
     if kind == "zero-covariance":
         # a centred square in the xy plane against a symmetric collinear set on z: the covariance matrix is exactly zero, every rotation
         # is optimal, and the routine must still return a proper rotation
@@ -182,6 +189,15 @@ def judge(seed, nrand):
     for C in cands:
         if rmsd(A, B, C) < best - 1e-9 * sc:
             return kind, f"a proper rotation gives RMSD {rmsd(A, B, C):.10g} < {best:.10g} of the returned one (coordinates of size {5 * sc:.3g})"
+    # plain nested lists are accepted by every helper that accepts them in one
+    try:
+        rl = num.rmsd_points(A.tolist(), np.asarray(B, dtype=float).tolist())
+        ml = np.asarray(num.reorient_points(A.tolist(), np.asarray(B, dtype=float).tolist()), dtype=float)
+        Rl = num.kabsch_rotation_matrix(A.tolist(), np.asarray(B, dtype=float).tolist())
+        if abs(rl - best) > 1e-9 * sc or not np.allclose(ml, A @ R, rtol=0, atol=1e-9 * sc) or not np.allclose(Rl, R, rtol=0, atol=1e-9):
+            return kind, "helpers give other results for the same coordinates passed as nested lists"
+    except Exception as ex:  # noqa
+        return kind, f"coordinates passed as nested lists: {type(ex).__name__}: {ex} (kabsch_rotation_matrix, reorient_points and rmsd_points accept sequences)"
     r2 = num.rmsd_points(A_in, B)
     if abs(r2 - best) > 1e-9 * sc:
         return kind, f"rmsd_points = {r2} but the RMSD after optimal alignment is {best}"
@@ -210,6 +226,15 @@ def judge_dimer(seed):
     n = rng.randint(3, 12)
     zs = [rng.choice([1, 6, 7, 8]) for _ in range(n)]
     P = np.array([[rng.uniform(-3, 3) for _ in range(3)] for _ in range(n)])
+    if rng.random() < 0.25:
+        # heavy atoms on a line, hydrogens off it (acetonitrile, propyne, ...): only the hydrogens fix the rotation about the axis
+        # with a three-fold symmetric methyl group the centroid of the molecule lies ON that line
+        nh = 3
+        ph0 = rng.uniform(0, 2)
+        zs = [6, 6, 7] + [1] * nh
+        P = np.array([[0, 0, 0], [0, 0, 1.46], [0, 0, 2.62]] + [[1.03 * math.cos(ph0 + 2 * math.pi * j / 3), 1.03 * math.sin(ph0 + 2 * math.pi * j / 3), -0.36] for j in range(nh)])
+        P = P @ rand_rot(rng) + np.array([rng.uniform(-2, 2) for _ in range(3)])
+        n = len(zs)
     Q = rand_rot(rng)
     if rng.random() < 0.3:
         # nearly the identity: a rotation by a few thousandths to hundredths of a degree is still a rotation
